@@ -1,6 +1,7 @@
 import PhyVerif.Model.C17
 import PhyVerif.Spec.C17
 import PhyVerif.Lemmas.C17
+import PhyVerif.Lemmas.C17b
 /-!
 # C17 — spike selection honours its cluster, chunk, subset and count constraints
 Only property theorems + non-vacuity examples; proofs in `Lemmas/C17.lean`.
@@ -30,6 +31,30 @@ theorem selection_ok (choose : List Nat → Nat → List Nat) (hch : ChooseOK ch
     SpecOK x (selectWith choose x) = true :=
   Lemmas.selection_ok choose hch x hg
 
+/-- The kept-chunk clause in the statement's own words, with no reference to the code's stride formula: the
+flattened kept bounds are the grid intervals at SOME regular stride ≥ 1 starting with the first, at most the
+requested number of them. -/
+theorem chunksKept_any_stride (bounds : List Int) (nKept : Nat) (hg : GridOK bounds) (hk : 1 ≤ nKept) :
+    keptOKAny bounds nKept (chunksKept bounds nKept) = true :=
+  Lemmas.chunksKept_any_stride bounds nKept hg hk
+
+/-- Which stride the code takes: the SMALLEST regular stride that keeps at most `k` of the `n` chunks (so as
+many chunks as the requested number allows are kept). -/
+theorem stride_minimal (n k : Nat) (hk : 1 ≤ k) :
+    (n + stride n k - 1) / stride n k ≤ k ∧
+    ∀ s, 1 ≤ s → (n + s - 1) / s ≤ k → stride n k ≤ s :=
+  Lemmas.stride_minimal n k hk
+
+/-- Main theorem restated on the domain of the real selector and relative to the kept intervals READ BACK from
+the selector's own `chunks_kept` attribute (this is the form the check evaluates on the real output: first
+`keptOKAny` on the real `chunks_kept`, then `SpecOKIn` with the intervals read back from it). -/
+theorem selection_ok_in (choose : List Nat → Nat → List Nat) (hch : ChooseOK choose) (x : Inp) (hd : Dom x) :
+    keptOKAny x.bounds x.nKept (chunksKept x.bounds x.nKept) = true ∧
+    SpecOKIn (pairsOf (chunksKept x.bounds x.nKept)) x (selectWith choose x) = true := by
+  refine ⟨Lemmas.chunksKept_any_stride _ _ hd.grid hd.kept, ?_⟩
+  rw [Lemmas.chunksKept_eq, ← flatOf, Lemmas.pairsOf_flatOf, ← Lemmas.specOK_eq_in]
+  exact Lemmas.selection_ok choose hch x hd.grid
+
 /-! Non-vacuity -/
 example : chunksKept [0, 10, 20, 30, 40, 50] 2 = [0, 10, 30, 40] := by decide
 example : keptOK [0, 10, 20, 30, 40, 50] 2 (chunksKept [0, 10, 20, 30, 40, 50] 2) = true := by decide
@@ -41,5 +66,12 @@ example :
                     [7, 2, 9], true, none⟩
     selectWith (fun l n => l.take n) x = [0, 1] ∧ SpecOK x [0, 1] = true ∧ SpecOK x [1, 4] = true ∧
       SpecOK x [0, 1, 3] = false := by decide
+example : keptOKAny [0, 10, 20, 30, 40, 50] 2 [0, 10, 30, 40] = true ∧   -- the code's stride 3
+    keptOKAny [0, 10, 20, 30, 40, 50] 2 [0, 10, 40, 50] = true ∧          -- stride 4: another admissible answer
+    keptOKAny [0, 10, 20, 30, 40, 50] 2 [0, 10, 20, 30, 40, 50] = false ∧ -- stride 2 keeps three chunks
+    keptOKAny [0, 10, 20, 30, 40, 50] 2 [10, 20, 40, 50] = false := by decide  -- does not start with the first
+example : stride 5 2 = 3 ∧ stride 7 3 = 3 ∧ stride 4 9 = 1 := by decide
+example : Dom ⟨[1, 5, 12], [2, 2, 7], [0, 10, 20], 1, some 2, [7, 2], true, none⟩ :=
+  ⟨⟨by decide, by decide⟩, by decide, by decide⟩
 
 end PhyVerif.C17
